@@ -193,6 +193,8 @@ def families():
 
 
 def work(payload, skip, report):
+    import time as _time
+    _t0 = _time.time()
     acc = Acc(PROP)
     kind = payload[0]
     ctx = new_ctx()
@@ -337,6 +339,9 @@ def work(payload, skip, report):
             except Exception as e:
                 acc.violation("no_exception", case, type(e).__name__, "returns")
     close_ctx(ctx)
+    acc.count("cpu_s_" + kind, int(_time.time() - _t0))
+    if _time.time() - _t0 > 15:
+        acc.count("slow_chunk:" + str(payload[:3])[:80], int(_time.time() - _t0))
     return acc
 
 
